@@ -556,7 +556,9 @@ func RuleK8(r *Report, c *Codec) {
 		return
 	}
 	w := NewWalker(c.P)
-	w.Inline = func(f *ssa.Function, d int) bool { return false }
+	w.Inline = inlineHelpers([]*ssa.Package{c.P.SSAPkg(codecRel)}, func(f *ssa.Function) bool {
+		return isFieldWalker(f) || (f.Object() != nil && f.Object().Exported())
+	})
 	paths := w.Walk(fn, []*Term{{Op: "param", Name: "m", Typ: fn.Params[0].Type()}}, nil)
 	ok := true
 	detail := ""
